@@ -184,6 +184,7 @@ def sparse_getitem(sparse, idxs):
 
         elif isinstance(idx, slice):
             start, stop, step = idx.indices(size[i])
+            stop = max(stop, start)
             size = list(size[:i]) + [stop - start] + list(size[i + 1 :])
             if step != 1:
                 raise RuntimeError("Slicing with step is not supported")
@@ -207,6 +208,8 @@ def sparse_getitem(sparse, idxs):
         else:
             raise RuntimeError("Unknown index type")
 
+    if 0 in size:
+        indices, values = indices[:, :0], values[:0]
     return torch.sparse_coo_tensor(indices, values, torch.Size(size), dtype=values.dtype, device=values.device)
 
 
